@@ -10,6 +10,10 @@ class PathLimit(Exception):
     pass
 
 
+class Infeasible(Exception):
+    """the path condition became unsatisfiable (after an assumed contract clause): the path does not exist"""
+
+
 class SymRaise(Exception):
     """a Python exception raised by the *analysed* program (a value of the path outcome)."""
 
@@ -139,7 +143,8 @@ class ForEach(Event):
 
 
 class Outcome:
-    def __init__(self, kind, value, pc, log, writes, choices, exc=None):
+    def __init__(self, kind, value, pc, log, writes, choices, exc=None, state=None):
+        self.state = state or {}
         self.kind = kind            # 'return' | 'raise'
         self.value = value
         self.pc = pc
@@ -150,3 +155,45 @@ class Outcome:
 
     def __repr__(self):
         return f'<{self.kind} {self.value!r} | {"; ".join(self.choices)}>'
+
+
+class Stub:
+    """contract stub usable as a callable value: fn(ex, args, kwargs) -> value"""
+
+    def __init__(self, fn, name='stub'):
+        self.fn, self.name = fn, name
+
+    def __repr__(self):
+        return f'<stub {self.name}>'
+
+
+class ModelObj:
+    """contract-provided abstract object: the contract implements the operations it supports; everything else is
+    Unsupported.  Hooks: m_getattr(ex,name) m_getitem(ex,idx) m_setitem(ex,idx,v) m_delitem(ex,idx) m_len(ex)
+    m_contains(ex,item) m_truth(ex) m_iter(ex)"""
+    label = 'model'
+    prov = 'param'
+
+    def _no(self, what):
+        raise Unsupported(f'{what} on {type(self).__name__}')
+
+    def m_getattr(self, ex, name):
+        self._no(f'attribute {name}')
+
+    def m_getitem(self, ex, idx):
+        self._no('subscript')
+
+    def m_setitem(self, ex, idx, v):
+        self._no('subscript store')
+
+    def m_delitem(self, ex, idx):
+        self._no('del subscript')
+
+    def m_len(self, ex):
+        self._no('len')
+
+    def m_contains(self, ex, item):
+        self._no('membership')
+
+    def m_truth(self, ex):
+        return True
